@@ -361,7 +361,6 @@ func VerifMutations() {
 	if cfgi == 2 {
 		// the caching planner is primed with the query that has the same selection set
 		if oi == 4 {
-			verifKnown("C06-cache-key-ignores-operation-type", true)
 			f.vPost(`query { ping }`, nil, "")
 		}
 		rounds = 2
